@@ -551,6 +551,66 @@ func (P *Prover) condFacts(cond ssa.Value, truth bool) []Poly {
 		if call, isCall := c.Tuple.(*ssa.Call); isCall && !P.inPost {
 			return P.calleePost(call, c.Index, truth)
 		}
+	case *ssa.Phi:
+		// for v, ok := helper(a); ok; v, ok = helper(a) { ... }: ok is a phi of the bool results of several
+		// calls of one helper; its conditional postconditions hold for the phis of the other results
+		if P.inPost || len(c.Edges) < 2 {
+			return nil
+		}
+		var calls []*ssa.Call
+		idx := -1
+		for _, e := range c.Edges {
+			ex, ok := e.(*ssa.Extract)
+			if !ok {
+				return nil
+			}
+			call, ok := ex.Tuple.(*ssa.Call)
+			if !ok || call.Call.StaticCallee() == nil || (len(calls) > 0 && (call.Call.StaticCallee() != calls[0].Call.StaticCallee() || ex.Index != idx)) {
+				return nil
+			}
+			calls = append(calls, call)
+			idx = ex.Index
+		}
+		f := calls[0].Call.StaticCallee()
+		var out []Poly
+		for _, pf := range P.calleePosts(f, idx, truth, nil) {
+			// the phi that merges result pf.res of the same calls, edge by edge
+			var rphi *ssa.Phi
+			for _, in := range c.Block().Instrs {
+				q, ok := in.(*ssa.Phi)
+				if !ok {
+					break
+				}
+				match := len(q.Edges) == len(calls)
+				for i := 0; match && i < len(calls); i++ {
+					ex, ok := q.Edges[i].(*ssa.Extract)
+					match = ok && ex.Tuple == ssa.Value(calls[i]) && ex.Index == pf.res
+				}
+				if match {
+					rphi = q
+				}
+			}
+			if rphi == nil {
+				continue
+			}
+			r := P.poly(rphi)
+			switch pf.kind {
+			case "ge0":
+				out = append(out, r.scale(-1))
+			case "leParam":
+				// the same argument value at every call
+				same := pf.param < len(calls[0].Call.Args)
+				for _, cl := range calls {
+					if !same || pf.param >= len(cl.Call.Args) || P.poly(cl.Call.Args[pf.param]).key() != P.poly(calls[0].Call.Args[pf.param]).key() {
+						same = false
+					}
+				}
+				if same {
+					out = append(out, r.add(P.poly(calls[0].Call.Args[pf.param]), -1))
+				}
+			}
+		}
+		return out
 	}
 	return nil
 }
@@ -716,6 +776,7 @@ func (P *Prover) calleePosts(f *ssa.Function, boolIdx int, boolVal bool, lower [
 	}
 	postCache[f][key] = nil // recursion guard
 	var rets []*ssa.Return
+	condRets := map[*ssa.Return]ssa.Value{}
 	for _, b := range f.Blocks {
 		ret, ok := b.Instrs[len(b.Instrs)-1].(*ssa.Return)
 		if !ok {
@@ -723,11 +784,14 @@ func (P *Prover) calleePosts(f *ssa.Function, boolIdx int, boolVal bool, lower [
 		}
 		if boolIdx >= 0 {
 			k, isK := ret.Results[boolIdx].(*ssa.Const)
-			if !isK || k.Value == nil {
-				return nil // not a constant pattern: no conditional facts
-			}
-			if (k.Value.String() == "true") != boolVal {
-				continue
+			if isK && k.Value != nil {
+				if (k.Value.String() == "true") != boolVal {
+					continue
+				}
+			} else if _, isCmp := ret.Results[boolIdx].(*ssa.BinOp); isCmp {
+				condRets[ret] = ret.Results[boolIdx] // `return v, v <= limit`: the comparison holds (or not) at this return
+			} else {
+				return nil // neither a constant nor a comparison: no conditional facts
 			}
 		}
 		rets = append(rets, ret)
@@ -750,7 +814,11 @@ func (P *Prover) calleePosts(f *ssa.Function, boolIdx int, boolVal bool, lower [
 		}
 		try := func(goal func(ret *ssa.Return) Poly) bool {
 			for _, ret := range rets {
-				if !CP.Prove(goal(ret), ret.Block()) {
+				var extra []Poly
+				if cv, ok := condRets[ret]; ok {
+					extra = CP.condFacts(cv, boolVal)
+				}
+				if !CP.ProveWith(goal(ret), ret.Block(), extra) {
 					return false
 				}
 			}
